@@ -226,7 +226,7 @@ class IRSpec:
                 if v[0] != 'ref':
                     table = {'set': ['set'], 'int': ['int', 'bool'], 'str': ['str'], 'dict': ['dict_empty', 'pdict', 'memo']}
                     return cont(s, B(BoolVal(any(v[0] in table.get(n, []) for n in names))))
-                ir = [n for n in names if n in IR_CLASSES]
+                ir = [n for n in names if n in IR_CLASSES or (n in c.C and n not in ('NoneType', 'Foreign'))]
                 if any(n == 'self.Direction' for n in names):
                     return cont(s, B(BoolVal(False)))
                 return cont(s, B(c.isa(v[1], *ir) if ir else BoolVal(False)))
